@@ -132,6 +132,7 @@ struct Conn {
   uint64_t out_acc = 0;              // bytes send() accepted
   uint64_t out_got = 0;              // bytes the peer has read (and verified)
   uint64_t acc_at_last_sc = 0; int sc_calls = 0;
+  bool sc_excused = false;           // disable() came between a send and its notification: the notification may be lost (left free)
   bool peer_eof = false;
   // peer -> tbox
   uint64_t in_wrote = 0;             // bytes the kernel took from the peer
@@ -301,7 +302,7 @@ struct Engine {
       }
       uint64_t seen;
       if (drain) { peer_read(c, SIZE_MAX); seen = c.out_got; } else seen = c.out_got + inq(c.prd);
-      if (seen != acc && !c.peer_eof)
+      if (seen != acc)
         fail(tag(c) + "send-complete notification " + std::to_string(c.sc_calls) + " fired when " + std::to_string(acc) + " bytes had been accepted by send(), but only " + std::to_string(seen) + " of them have been written to the descriptor (" + std::to_string(c.out_got) + " read by the peer" + (drain ? "" : " + " + std::to_string(seen - c.out_got) + " waiting in the kernel") + ")");
     }
     run_acts(c, 2);
@@ -325,11 +326,13 @@ struct Engine {
       if (c.in_hw != c.in_wrote && c.thr_stable && pending >= std::max<size_t>(c.thr, 1))
         fail(tag(c) + std::string("peer close reported (") + how + ") before all data that preceded it was presented: the peer wrote " + std::to_string(c.in_wrote) + " bytes, receive callbacks saw the stream only up to offset " + std::to_string(c.in_hw) + " (" + std::to_string(c.in_cons) + " consumed, threshold " + std::to_string(c.thr) + ")");
     }
+    c.tfd = -1; c.running = false;
     run_acts(c, 3);
   }
 
   // ---- ops ---------------------------------------------------------------------------------------
   void do_send(Conn &c, size_t n, bool in_cb) {
+    if (!c.can_write) return;          // read end of a pipe
     if (n < 1) n = 1;
     if (n > kMaxOne) n = kMaxOne;
     if (used_out + n > kBudgetOut) n = 1 + n % 1500;
@@ -346,7 +349,7 @@ struct Engine {
     bool ok = ep_send(c, d.get(), n);
     if (!ok) { if (c.can_write && c.close_reports == 0 && !in_cb) fail(tag(c) + "send() refused " + std::to_string(n) + " bytes on a live connection"); return; }
     c.out_acc += n;
-    if (!c.running) c_before_enable = true;
+    if (!c.running) c_before_enable = true; else c.sc_excused = false;
     if (n >= (64u << 10)) c_big = true;
     if (direct && !c.peer_closed) {
       size_t q_after = inq(c.prd);
@@ -392,9 +395,9 @@ struct Engine {
         used_in += n; c->peer_backlog += n; peer_flush(*c); break; }
       case PSHUT: { Conn *c = pick(op); if (!c || c->peer_closed || (c->prd < 0 && c->pwr < 0)) break;
         c->peer_backlog = 0;
-        if (op.in(1, 0, 2) == 0 && !c->peer_shut) {          // stop sending, keep reading
-          if (c->peer_sock) { if (c->pwr >= 0) ::shutdown(c->pwr, SHUT_WR); }
-          else if (c->pwr >= 0) { ::close(c->pwr); c->pwr = -1; }
+        if (op.in(1, 0, 2) == 0) {                           // stop sending, keep reading
+          if (c->peer_shut || c->pwr < 0) break;
+          if (c->peer_sock) ::shutdown(c->pwr, SHUT_WR); else { ::close(c->pwr); c->pwr = -1; }
           c->peer_shut = true;
         } else { peer_close_fds(*c); c->peer_closed = true; }
         break; }
@@ -409,7 +412,7 @@ struct Engine {
         break; }
       case BUFSZ: { Conn *c = pick(op); if (!c) break;
         int side = (int)op.in(1, 0, 1), idx = (int)op.in(2, 0, 3);
-        if (!kSockBuf[idx]) break;
+        if (!kSockBuf[idx] || c->inet) break;
         if (c->peer_sock) { int fd = side ? c->pwr : c->tfd; if (fd >= 0 && !c->tbox_gone) { apply_sockbuf(fd, idx); (side ? c->pbuf : c->tbuf) = idx; } }
         else { int fd = c->pwr >= 0 ? c->pwr : c->prd; if (fd >= 0) apply_pipebuf(fd, idx); }
         break; }
@@ -432,10 +435,10 @@ struct Engine {
       fail(tag(c) + "the peer " + (c.peer_closed ? "closed" : "shut down its sending side") + ", the tbox side was enabled and idle at the end, but the close was never reported");
     if (c.close_reports) return;                  // the connection ended with the peer's close; checked in on_closed
     if (c.peer_shut || c.peer_closed) return;
-    if (c.can_write && c.prd >= 0 && !c.peer_eof) {
+    if (c.can_write && c.prd >= 0) {
       if (c.out_got != c.out_acc)
         fail(tag(c) + "send() accepted " + std::to_string(c.out_acc) + " bytes, the peer read until nothing more arrived and got only " + std::to_string(c.out_got) + " (neither side closed; " + std::to_string(c.sc_calls) + " send-complete notifications)");
-      else if (kCheckSendCompleteFires && c.out_acc > c.acc_at_last_sc)
+      else if (kCheckSendCompleteFires && c.out_acc > c.acc_at_last_sc && !c.sc_excused)
         fail(tag(c) + "all " + std::to_string(c.out_acc) + " accepted bytes reached the peer but no send-complete notification followed the last send (last one fired at " + std::to_string(c.acc_at_last_sc) + " accepted bytes, " + std::to_string(c.sc_calls) + " in total)");
     }
     if (c.can_read) {
@@ -452,6 +455,16 @@ struct Engine {
     }
   }
 
+  bool last_progress = false; int inet_waited_ms = 0;
+  bool progress_seen_this_pass() const { return last_progress; }
+  bool inet_pending(Conn &c) {
+    if (!(c.tbox_up && !c.tbox_gone && !c.err_seen && c.close_reports == 0)) return false;
+    if (c.peer_shut || c.peer_closed) return true;                       // the close has to be reported
+    if (c.prd >= 0 && c.out_got < c.out_acc) return true;
+    if (c.peer_backlog) return true;
+    Buffer *rb = ep_rbuf(c);
+    return rb && c.in_cons + rb->readableSize() < c.in_wrote;
+  }
   // one step per loop pass, outside any callback
   bool step(int) {
     clk.now += (uint64_t)tick_ms;
@@ -468,8 +481,11 @@ struct Engine {
     }
     if (phase == 1) {
       if (progress) quiet = 0; else ++quiet;
-      progress = false;
-      for (auto &c : conns) if (c->inet && c->prd >= 0 && quiet > 0) { struct pollfd pf = {c->prd, POLLIN, 0}; ::poll(&pf, 1, 3); }   // loopback TCP needs real time
+      last_progress = progress; progress = false;
+      // loopback TCP needs real time: while something is known to be in flight, wait (bounded) instead of counting a quiet pass
+      if (!progress_seen_this_pass()) for (auto &c : conns) if (c->inet && inet_pending(*c) && inet_waited_ms < 3000) {
+        struct pollfd pf = {c->prd, POLLIN, 0}; ::poll(&pf, c->prd >= 0 ? 1 : 0, 2); inet_waited_ms += 2; quiet = 0; break;
+      }
       if (quiet < quiet_need && ++drain_passes < kMaxDrainPasses) return true;
       if (drain_passes >= kMaxDrainPasses) fail(std::string(sub) + ": no quiescence after " + std::to_string(drain_passes) + " passes of draining");
       for (auto &c : conns) if (err.empty()) final_check(*c);
@@ -531,7 +547,7 @@ struct BfdEngine : Engine {
     } else {
       int p[2]; if (pipe2(p, O_CLOEXEC) != 0) return false;
       c->peer_sock = false;
-      if (transport == 1) { tfd = p[1]; c->prd = p[0]; set_nonblock(p[0]); c->can_read = false; apply_pipebuf(p[1], tbuf); info.cls("pipe_tbox_writes"); }
+      if (transport == 1) { tfd = p[1]; c->prd = p[0]; set_nonblock(p[0]); c->can_read = false; apply_pipebuf(p[1], tbuf); info.cls("pipe_tbox_writes"); }   // a read event on a write end (kReadWrite, as the unit tests do) never fires
       else { tfd = p[0]; c->pwr = p[1]; set_nonblock(p[1]); c->can_write = false; apply_pipebuf(p[1], pbuf); info.cls("pipe_tbox_reads"); }
     }
     c->tfd = tfd;
@@ -539,7 +555,6 @@ struct BfdEngine : Engine {
     short ev = BufferedFd::kReadWrite;
     if (evmode == 0 && transport == 1) ev = BufferedFd::kWriteOnly;
     if (evmode == 0 && transport == 2) ev = BufferedFd::kReadOnly;
-    if (ev == BufferedFd::kReadWrite && transport == 1) c->can_read = true;      // a read event on a pipe's write end: never readable, harmless (as the unit tests do)
     if (!bfd->initialize(tbox::network::Fd(tfd), ev)) { fail("bfd: initialize() failed"); return false; }
     c->thr = (size_t)cfgv(4, 0, 3000);
     if (cfgv(6, 0, 3) == 0) c->thr = 0;
@@ -549,7 +564,6 @@ struct BfdEngine : Engine {
     bfd->setReadErrorCallback([this](int) { c_err = true; peer_gone("read-error callback"); });
     bfd->setWriteErrorCallback([this](int e) { c_err = true; progress = true; if (e != EAGAIN && bfd) { c->err_seen = true; bfd->disable(); c->running = false; } });
     c->tbox_up = true;
-    if (transport == 1 && ev == BufferedFd::kReadWrite) c->can_read = false;     // nothing can ever be read from a write end: no close report is expected
     return true;
   }
   // the one in-tree user of the read-zero callback (TcpConnection) disables the descriptor inside the callback; so does the harness
@@ -574,7 +588,12 @@ struct BfdEngine : Engine {
     if (!bfd->enable()) fail("bfd: enable() returned false on an initialised descriptor");
     c->running = true;
   }
-  void op_disable() override { if (!bfd) return; bfd->disable(); c->running = false; }
+  void op_disable() override {
+    if (!bfd) return;
+    if (!bfd->disable()) fail("bfd: disable() returned false on an initialised descriptor");
+    c->running = false;
+    if (c->out_acc > c->acc_at_last_sc) { c->sc_excused = true; stats().counters["disable_between_send_and_notification"]++; }
+  }
   void before_drain() override { op_enable(); }
   void teardown() override { if (bfd) { delete bfd; bfd = nullptr; c->tbox_gone = true; } }
 };
@@ -622,6 +641,7 @@ struct ServerEngine : Engine {
     addr.inet = cfgv(0, 0, 11) == 11;
     backlog = (int)cfgv(1, 1, 4);
     tbuf = (int)cfgv(2, 0, 3); pbuf = (int)cfgv(3, 0, 3);
+    if (addr.inet) tbuf = pbuf = 3;       // tiny TCP windows stall on persist / delayed-ACK timers (hundreds of real milliseconds)
     srv_thr = (size_t)cfgv(4, 0, 3000); if (cfgv(6, 0, 3) == 0) srv_thr = 0;
     sc_mode = (int)cfgv(5, 0, 1);
     addr.path = scratch_dir() + "/s";
@@ -692,7 +712,6 @@ struct ServerEngine : Engine {
     srv->setReceiveCallback([this](const TcpServer::ConnToken &tk, Buffer &b) { Conn *c = by_token(tk); if (!c) { fail("server: receive callback for an unknown connection token"); return; } on_recv(*c, b); }, t);
   }
   void teardown() override { if (srv) { srv->cleanup(); srv.reset(); for (auto &c : conns) c->tbox_gone = true; } }
-  void after_close(Conn &c) { c.tfd = -1; }
 };
 
 // =====================================================================================================
@@ -724,6 +743,7 @@ struct ClientEngine : Engine {
     addr.inet = cfgv(0, 0, 11) == 11;
     reconnect = cfgv(1, 0, 1) == 1;
     tbuf = (int)cfgv(2, 0, 3); pbuf = (int)cfgv(3, 0, 3);
+    if (addr.inet) tbuf = pbuf = 3;
     cli_thr = (size_t)cfgv(4, 0, 3000); if (cfgv(6, 0, 3) == 0) cli_thr = 0;
     sc_mode = (int)cfgv(5, 0, 1);
     accept_delay = (int)cfgv(7, 0, 6);
@@ -753,8 +773,8 @@ struct ClientEngine : Engine {
   void on_connected() {
     progress = true;
     if (Conn *o = cur()) if (o->tbox_up && !o->tbox_gone && o->close_reports == 0) { fail("client: connected callback while the previous connection was neither closed by the peer nor stopped"); return; }
-    if (conns.size() >= 6) return;        // enough epochs
     Conn *c = new_conn();
+    if (conns.size() >= 6) cli->setAutoReconnect(false);        // enough epochs
     c->tbox_up = true; c->running = true; c->thr = cli_thr; c->inet = addr.inet; c->pbuf = pbuf;
     std::vector<int> known = base_fds; known.insert(known.end(), accepted.begin(), accepted.end());
     for (auto &x : conns) if (x->prd >= 0) known.push_back(x->prd);
@@ -774,7 +794,7 @@ struct ClientEngine : Engine {
       if (fd >= 0) { pending_age = 0; progress = true; if (addr.inet) { int one = 1; setsockopt(fd, IPPROTO_TCP, TCP_NODELAY, &one, sizeof one); } else apply_sockbuf(fd, pbuf); accepted.push_back(fd); match(); }
     }
   }
-  void op_connect() override { if (cli && cli->state() == TcpClient::State::kInited) { cli->start(); progress = true; } }
+  void op_connect() override { if (cli && conns.size() < 6 && cli->state() == TcpClient::State::kInited) { cli->start(); progress = true; } }
   bool ep_send(Conn &c, const void *p, size_t n) override { return cli && &c == cur() && cli->send(p, n); }
   Buffer *ep_rbuf(Conn &c) override { return (cli && &c == cur() && c.close_reports == 0 && !c.tbox_gone) ? cli->getReceiveBuffer() : nullptr; }
   void ep_disconnect(Conn &c, bool) override {
@@ -826,7 +846,7 @@ rc::Gen<Scenario> make_gen(int kind) {   // 0 bfd, 1 server, 2 client
   auto cons = mkop(CONS, {range(0, 4), rc::gen::weightedOneOf<int64_t>({{3, range(0, 40)}, {2, range(41, 3000)}, {1, range(3001, 70000)}})});
   auto head = rc::gen::apply([](Op c, std::vector<Op> cs) { std::vector<Op> v; v.push_back(std::move(c)); if (cs.size() > 4) cs.resize(4); for (auto &o : cs) v.push_back(std::move(o)); return v; },
                              cfg, rc::gen::resize(3, rc::gen::container<std::vector<Op>>(cons)));
-  std::vector<std::pair<size_t, rc::Gen<Op>>> w = {
+  auto common = rc::gen::weightedOneOf<Op>({
     {10, mkop(SEND, {conn, rc::gen::weightedOneOf<int64_t>({{5, rc::gen::just<int64_t>(0)}, {4, range(1, 4)}}), size_gen()})},
     {5, mkop(PREAD, {conn, size_gen()})},
     {3, mkop(PAUTO, {conn, rc::gen::weightedOneOf<int64_t>({{2, rc::gen::just<int64_t>(0)}, {2, range(1, 3000)}, {1, range(3001, 70000)}})})},
@@ -838,10 +858,10 @@ rc::Gen<Scenario> make_gen(int kind) {   // 0 bfd, 1 server, 2 client
     {1, mkop(BUFSZ, {conn, range(0, 1), range(0, 3)})},
     {2, mkop(CBSEND, {conn, range(1, 3), size_gen()})},
     {1, mkop(PEEK, {conn})},
-  };
-  if (kind == 0) { w.push_back({4, mkop(ENABLE, {})}); w.push_back({2, mkop(DISABLE, {})}); w.push_back({1, mkop(SHRINK, {conn, range(0, 3)})}); }
-  else w.push_back({2, mkop(CONNECT, {})});
-  return scenarioOf(head, opsOf(rc::gen::weightedOneOf<Op>(w)));
+  });
+  auto special = kind == 0 ? rc::gen::weightedOneOf<Op>({{4, mkop(ENABLE, {})}, {2, mkop(DISABLE, {})}, {1, mkop(SHRINK, {conn, range(0, 3)})}})
+                           : mkop(CONNECT, {});
+  return scenarioOf(head, opsOf(rc::gen::weightedOneOf<Op>({{37, common}, {(size_t)(kind == 0 ? 7 : 2), special}})));
 }
 #endif
 
